@@ -12,6 +12,7 @@ CONSTANTS AlgName, Sizes, Depth, Scalars, UseJunk
 
 TheAlg ==
     CASE AlgName = "hashaff" -> A("hashaff")
+      [] AlgName = "hashflip" -> A("hashaff")   \* the same summaries under ONE modifier, negation: a zero-sized modifier type in the code
       [] AlgName = "min" -> A("min")
       [] AlgName = "max" -> A("max")
       [] AlgName = "sum" -> A("sum")
@@ -24,14 +25,15 @@ TheAlg ==
 
 \* modifiers offered: non-commuting affine maps (add 1, assign 2, double) / addends / the unit modifier
 Mods ==
-    CASE ModKind(TheAlg) = "aff" -> {<<1, 1>>, <<0, 2>>, <<2, 0>>}
+    CASE AlgName = "hashflip" -> {<<Q - 1, 0>>}
+      [] ModKind(TheAlg) = "aff" -> {<<1, 1>>, <<0, 2>>, <<2, 0>>}
       [] ModKind(TheAlg) = "add" -> {-1, 2}
       [] ModKind(TheAlg) = "none" -> {0}
 
 P(p, k, path) == [p |-> p, k |-> k, path |-> path]
 Preds ==
     {P("true", 0, <<>>), P("false", 0, <<>>)} \cup
-    (CASE AlgName = "hashaff" -> {P("lenge", k, <<>>) : k \in {2, 3}}
+    (CASE AlgName \in {"hashaff", "hashflip"} -> {P("lenge", k, <<>>) : k \in {2, 3}}
        [] AlgName = "min" -> {P("minle", k, <<>>) : k \in {0, 1}}
        [] AlgName = "max" -> {P("maxge", k, <<>>) : k \in {1, 2}}
        [] AlgName = "sum" -> {P("sumge", k, <<>>) : k \in {1, 3}}
